@@ -401,10 +401,12 @@ macro_rules! quaternion_complete_mod {
             pub fn into_angle_axis(self) -> (T, Vec3<T>) where T: Real {
                 // http://www.euclideanspace.com/maths/geometry/rotations/conversions/quaternionToAngle/
                 // Also, Q57 of matrix-quaternion FAQ
+                // NOTE: acos(w) and sqrt(1 - w*w) lose all accuracy for small angles (w rounds to 1);
+                // the magnitude of the vector part is sin(angle/2) and does not.
                 let Self { x, y, z, w } = self;
-                let angle = w.acos();
+                let s = (x*x + y*y + z*z).sqrt();
+                let angle = s.atan2(w);
                 let angle = angle + angle;
-                let s = (T::one() - w*w).sqrt();
                 let axis = if s < T::epsilon() {
                     Vec3::unit_x() // Any axis would do
                 } else {
